@@ -151,6 +151,42 @@ def flow_simultaneous_ike_rekey(n, eng, fault_at):
         pump(n, 'B', resa, 'simultaneous IKE rekey (B side)')
 
 
+def _trigger(n, who, t):
+    ctl = n.a if who == 'A' else n.b
+    me, E = ctl.ike_sas[0], (n.A if who == 'A' else n.B)
+    if t == 'soft':
+        return n.expire(who, me.child_sas[0].inbound_spi, False)
+    if t == 'hard':
+        return n.expire(who, me.child_sas[0].inbound_spi, True)
+    if t == 'acquire':
+        return n.acquire(who, sport=9999, dport=23) if who == 'A' else n.acquire(who, sport=23, dport=9999)
+    if t == 'rekey_ike':
+        me.rekey_ike_sa_at = world.ENV.now - 1
+    else:
+        me.delete_ike_sa_at = world.ENV.now - 1
+    with E:
+        return me.check_rekey_ike_sa_timer()
+
+
+def flow_cross(n, eng, fault_at, ta, tb):
+    """both endpoints start an exchange at the same time: each request is received while the own one is outstanding"""
+    n.establish()
+    arm_fault(eng, n, fault_at, 6)
+    ra = _trigger(n, 'A', ta); check(n, 'A', f'{ta} trigger')
+    rb = _trigger(n, 'B', tb); check(n, 'B', f'{tb} trigger')
+    resb = n.dispatch('B', ra) if ra is not None else None
+    check(n, 'B', f'crossing {ta} request')
+    resa = n.dispatch('A', rb) if rb is not None else None
+    check(n, 'A', f'crossing {tb} request')
+    if resb is not None:
+        pump(n, 'A', resb, f'{ta} x {tb} (A side)')
+    if resa is not None:
+        pump(n, 'B', resa, f'{ta} x {tb} (B side)')
+    check(n, 'A', 'the end')
+    check(n, 'B', 'the end')
+
+
+CROSS = ('soft', 'hard', 'acquire', 'rekey_ike', 'del_ike')
 FLOWS = {
     'initial': (flow_initial, {}, {}),
     'new_child': (flow_new_child, {}, {}),
@@ -170,6 +206,7 @@ FLOWS = {
     'simultaneous_rekey': (flow_simultaneous_rekey, {}, {}),
     'simultaneous_ike_rekey': (flow_simultaneous_ike_rekey, {}, {}),
 }
+FLOWS.update({f'cross_{ta}_{tb}': (flow_cross, {'ta': ta, 'tb': tb}, {}) for ta in CROSS for tb in CROSS})
 
 
 def h_flow(name, fault_at):
